@@ -63,28 +63,32 @@ structure OutOK (m : OutMsg) : Prop where
   adm : isAdminKind m.kind = true
 
 /-- header bookkeeping (tag 369, reply marker) does not matter here -/
-theorem OutOK.stamp {m : OutMsg} (h : OutOK m) (s : Sess) : OutOK (stamp s m) := ⟨⟨h.ok.f, h.ok.k, h.ok.k4, h.ok.app, h.ok.rr⟩, h.adm⟩
-theorem OutOK.asNew {m : OutMsg} (h : OutOK m) : OutOK m.asNew := ⟨⟨h.ok.f, h.ok.k, h.ok.k4, h.ok.app, h.ok.rr⟩, h.adm⟩
-theorem OutOK.re {m : OutMsg} (h : OutOK m) (r : InMsg) : OutOK (m.inReplyTo r) := ⟨⟨h.ok.f, h.ok.k, h.ok.k4, h.ok.app, h.ok.rr⟩, h.adm⟩
+theorem OutOK.stamp {m : OutMsg} (h : OutOK m) (s : Sess) : OutOK (stamp s m) := ⟨⟨h.ok.f, h.ok.ord, h.ok.k, h.ok.k4, h.ok.app, h.ok.rr⟩, h.adm⟩
+theorem OutOK.asNew {m : OutMsg} (h : OutOK m) : OutOK m.asNew := ⟨⟨h.ok.f, h.ok.ord, h.ok.k, h.ok.k4, h.ok.app, h.ok.rr⟩, h.adm⟩
+theorem OutOK.re {m : OutMsg} (h : OutOK m) (r : InMsg) : OutOK (m.inReplyTo r) := ⟨⟨h.ok.f, h.ok.ord, h.ok.k, h.ok.k4, h.ok.app, h.ok.rr⟩, h.adm⟩
 
 theorem OutOK.no141 {m : OutMsg} (h : OutOK m) : m.f.get? 141 = none :=
   get?_none_of_tags _ _ (fun p hp => (h.ok.f p hp).2.1)
 
 theorem outOK_mk (k : String) (f : Fields) (ha : isAdminKind k = true) (hk4 : k ≠ "4")
     (hf : ∀ p ∈ f, p.2 ≠ "" ∧ p.1 ≠ 141 ∧ p.1 ≠ 9001 ∧ p.1 ≠ 9000 ∧ p.1 ≠ 123)
-    (hrr : k = "2" → ∃ x y : Int, Fields.get? f 7 = some (toString x) ∧ Fields.get? f 16 = some (toString y)) : OutOK (mkOut k f) := by
-  refine ⟨⟨?_, ?_, hk4, ?_, hrr⟩, ha⟩
+    (hrr : k = "2" → ∃ x y : Int, Fields.get? f 7 = some (toString x) ∧ Fields.get? f 16 = some (toString y))
+    (ho : SecOrd f) : OutOK (mkOut k f) := by
+  refine ⟨⟨?_, ho, ?_, hk4, ?_, hrr⟩, ha⟩
   · intro p hp; have := hf p hp; exact ⟨this.1, this.2.1, this.2.2.1, fun _ => this.2.2.2.1, this.2.2.2.2⟩
   · intro h; simp only [mkOut] at h; rw [h] at ha; revert ha; decide
   · intro h; simp only [mkOut] at h; rw [h] at ha; cases ha
 
-theorem outOK_logout : OutOK (mkOut "5" []) := outOK_mk _ _ (by decide) (by decide) (by intro p hp; cases hp) (fun h => absurd h (by decide))
-theorem outOK_heartbeat : OutOK (mkOut "0" []) := outOK_mk _ _ (by decide) (by decide) (by intro p hp; cases hp) (fun h => absurd h (by decide))
+theorem outOK_logout : OutOK (mkOut "5" []) :=
+  outOK_mk _ _ (by decide) (by decide) (by intro p hp; cases hp) (fun h => absurd h (by decide)) (SecOrd.body rfl)
+theorem outOK_heartbeat : OutOK (mkOut "0" []) :=
+  outOK_mk _ _ (by decide) (by decide) (by intro p hp; cases hp) (fun h => absurd h (by decide)) (SecOrd.body rfl)
 theorem outOK_testRequest : OutOK (mkOut "1" [(112, "TEST")]) :=
   outOK_mk _ _ (by decide) (by decide) (by intro p hp; simp only [List.mem_singleton] at hp; subst hp; decide) (fun h => absurd h (by decide))
+    (SecOrd.body rfl)
 theorem outOK_hbReply (id : String) (h : id ≠ "") : OutOK (mkOut "0" [(112, id)]) :=
   outOK_mk _ _ (by decide) (by decide) (by intro p hp; simp only [List.mem_singleton] at hp; subst hp; exact ⟨h, by simp, by simp, by simp, by simp⟩)
-    (fun h => absurd h (by decide))
+    (fun h => absurd h (by decide)) (SecOrd.body rfl)
 theorem outOK_resendRequest (b e : Int) : OutOK (mkOut "2" [(7, toString b), (16, toString e)]) :=
   outOK_mk _ _ (by decide) (by decide) (by
     intro p hp
@@ -92,11 +96,13 @@ theorem outOK_resendRequest (b e : Int) : OutOK (mkOut "2" [(7, toString b), (16
     rcases hp with rfl | rfl
     · exact ⟨toString_int_ne_empty _, by simp, by simp, by simp, by simp⟩
     · exact ⟨toString_int_ne_empty _, by simp, by simp, by simp, by simp⟩)
-    (fun _ => ⟨b, e, by simp [get?_cons], by simp [get?_cons]⟩)
+    (fun _ => ⟨b, e, by simp [get?_cons], by simp [get?_cons]⟩) (SecOrd.body rfl)
 
 theorem outOK_logon (s : Sess) : OutOK (logonMsg s false) := by
   unfold logonMsg
-  refine outOK_mk _ _ (by decide) (by decide) ?_ (fun h => absurd h (by decide))
+  refine outOK_mk _ _ (by decide) (by decide) ?_ (fun h => absurd h (by decide)) (SecOrd.body (by
+    simp only [Bool.false_eq_true, if_false, List.append_nil]
+    split <;> rfl))
   intro p hp
   simp only [Bool.false_eq_true, if_false, List.append_nil, List.mem_append, List.mem_singleton] at hp
   rcases hp with rfl | hp
@@ -139,6 +145,11 @@ theorem reverseRoute_ok (im : InMsg) : ∀ p ∈ reverseRoute im, routeTag p.1 =
          · cases hp
        · cases hp)
 
+theorem routeTag_header (t : Nat) (h : routeTag t = true) : Validate.isHeaderTag t = true := by
+  unfold routeTag at h
+  simp only [Bool.or_eq_true, beq_iff_eq] at h
+  rcases h with ((((((((((rfl | rfl) | rfl) | rfl) | rfl) | rfl) | rfl) | rfl) | rfl) | rfl) | rfl) | rfl <;> decide
+
 theorem outOK_reject (cfg : Cfg) (im : InMsg) (reason : Nat) (refTag : Option Nat) (hk : kindOf im ≠ "") :
     OutOK (rejectMsg cfg im reason refTag false) := by
   have hroute : ∀ p ∈ (reverseRoute im).filter (fun p => p.1 != 49 && p.1 != 56), p.2 ≠ "" ∧ p.1 ≠ 141 ∧ p.1 ≠ 9001 ∧ p.1 ≠ 9000 ∧ p.1 ≠ 123 := by
@@ -151,10 +162,20 @@ theorem outOK_reject (cfg : Cfg) (im : InMsg) (reason : Nat) (refTag : Option Na
     · simp only [List.mem_singleton] at hp; subst hp
       exact ⟨toString_int_ne_empty _, by simp, by simp, by simp, by simp⟩
     · cases hp
+  have horoute : hdrOnly ((reverseRoute im).filter (fun p => p.1 != 49 && p.1 != 56)) = true := by
+    unfold hdrOnly
+    rw [List.all_eq_true]
+    intro p hp
+    exact routeTag_header _ (reverseRoute_ok im p (List.mem_filter.1 hp).1).1
+  have hoseq : bodyOnly (match getInt im 34 with | .val i => ([(45, toString i)] : Fields) | _ => []) = true := by
+    split <;> rfl
   unfold rejectMsg
   simp only [Bool.false_eq_true, if_false]
   split
-  · refine outOK_mk _ _ (by decide) (by decide) ?_ (fun h => absurd h (by decide))
+  · refine outOK_mk _ _ (by decide) (by decide) ?_ (fun h => absurd h (by decide)) (by
+      simp only [List.append_assoc]
+      refine SecOrd.hdr_append horoute (SecOrd.body ?_)
+      refine bodyOnly_append (by split <;> rfl) (bodyOnly_append (by split <;> rfl) (bodyOnly_append rfl hoseq)))
     intro p hp
     simp only [List.mem_append] at hp
     rcases hp with (((hp | hp) | hp) | hp) | hp
@@ -170,7 +191,7 @@ theorem outOK_reject (cfg : Cfg) (im : InMsg) (reason : Nat) (refTag : Option Na
     · simp only [List.mem_singleton] at hp; subst hp
       exact ⟨hk, by simp, by simp, by simp, by simp⟩
     · exact hseq p hp
-  · refine outOK_mk _ _ (by decide) (by decide) ?_ (fun h => absurd h (by decide))
+  · refine outOK_mk _ _ (by decide) (by decide) ?_ (fun h => absurd h (by decide)) (SecOrd.hdr_append horoute (SecOrd.body hoseq))
     intro p hp
     simp only [List.mem_append] at hp
     rcases hp with hp | hp
